@@ -19,7 +19,7 @@ CHECKS = {
   note="Trusted: ref/solve's cut semantics (self-checked against ISO 7.8.4 examples). Cut placements inside nested ;/,/-> are excluded as the property states.",
   design="DESIGN.md §3 C03"),
  "C04": dict(
-  technique="bounded-exhaustive enumeration of catch/throw skeletons (all clause bodies up to a length bound over 41 item shapes x 9 contexts, plus the body as query, directive and initialization goal) on the real interpreter; answers, recovery trace and final error compared with an ISO reference machine",
+  technique="bounded-exhaustive enumeration of catch/throw skeletons (all clause bodies up to a length bound over 48 item shapes x 9 contexts, plus the body as query, directive and initialization goal) on the real interpreter; answers, recovery trace and final error compared with an ISO reference machine",
   text="Every skeleton combines generators, cuts, user balls sharing variables (incl. list balls), built-in errors and catch/3 goals that exit deterministically, with choice points, or are re-entered by backtracking; each is run uncaught, caught outside, inside findall, and with a throw after the catch has exited; the reference keeps catch frames as choice points with a trailed active flag. Exhaustive within the bounds.",
   note="Trusted: ref/solve's catch/throw semantics (self-checked against ISO 7.8.9 examples); only the formal part of error(Formal, Context) is compared.",
   design="DESIGN.md §3 C04"),
@@ -59,7 +59,7 @@ CHECKS = {
   note="Trusted: shim lock model, porcupine v1.3.0, Go race detector. Memory-model effects weaker than sequential consistency are not explored.",
   design="DESIGN.md §3 C14"),
  "C17": dict(
-  technique="bounded-exhaustive enumeration of grammars (all rule bodies up to a length bound over 35 body constructs, 9 rule variants (push-back heads of one, two, three terminals, a string, empty, with a head variable), cuts nested in alternations, loaded through Exec and through expand_term/2 + assertz/1) x all input lists up to a length bound on the real interpreter, compared with a direct (non-translating) interpreter of grammar bodies inside the reference machine",
+  technique="bounded-exhaustive enumeration of grammars (all rule bodies up to a length bound over 37 body constructs, 9 rule variants (push-back heads of one, two, three terminals, a string, empty, with a head variable), cuts nested in alternations, loaded through Exec and through expand_term/2 + assertz/1) x all input lists up to a length bound on the real interpreter, compared with a direct (non-translating) interpreter of grammar bodies inside the reference machine",
   text="Every grammar of the enumerated family is loaded into a fresh real interpreter and queried with phrase/2 and phrase/3 for every input list up to the bound, for all remainders, and in generation mode; success/failure, the bindings of the non-terminals' arguments, the remainder and the answer order must equal those of a reference that interprets grammar bodies directly over difference lists and never translates a rule.",
   note="Trusted: the direct DCG interpreter in ref/solve.go (sequence, alternation, {}, \\+, !, call//N, if-then-else, push-back) and the reference machine underneath.",
   design="DESIGN.md §3 C17"),
